@@ -23,7 +23,9 @@ RULE = ("cases = histories: 1..4 CREATE TABLE (same name in 2-3 schemas and with
         "which must raise. Non-trivial = >= 1 ALTER/INDEX on a script with >= 2 tables or a re-spelled reference; distinct = text."
         " Added after seeded defects: index-only columns called like ALTER keywords, IF EXISTS / ONLY noise words, spelled rename targets, every 4th history also in a dialect mode, "
         "every ordered triple of statement kinds on one 2-3 column table (quick: 8 kinds, thorough: all 15; more column draws when a kind repeats), multi-column foreign keys whose "
-        "referenced columns are called like the key columns in another order, renames that only re-spell the old name, every 7th random history without any ';' (possible since fix F18), tables named t / t#1, columns added with an inline REFERENCES.")
+        "referenced columns are called like the key columns in another order, renames that only re-spell the old name, every 7th random history without any ';' (possible since fix F18), tables named t / t#1, columns added with an inline REFERENCES; "
+        "wave 9/10: index columns called like lexer keywords (type, comment, key, order ...), a dropped column added again (ADD; DROP c; ADD c), one more word after a complete statement "
+        "(DROP COLUMN b CASCADE, PRIMARY KEY (a) ENABLE, CREATE INDEX .. NOLOGGING) on qualified and unqualified tables.")
 ASSUMPTIONS = ["columns named in ADD UNIQUE / ADD DEFAULT .. FOR / index lists use the column's current spelling (the property claims quoting/case-insensitive matching for tables, and DROP/RENAME/MODIFY COLUMN)",
                "alter.columns records are checked by number (an added column is the same object as the table column, so a later RENAME shows in it) plus the full FK records",
                "ADD column only with name/type/size/DEFAULT"]
@@ -53,7 +55,12 @@ def qual(schema, name):
     return (schema + "." if schema else "") + name
 
 
-KINDS = ["add", "add_default", "add_ref", "drop", "rename", "modify", "uniq1", "uniq_n", "pk", "pk_unnamed", "check", "default", "fk", "fk_n", "index", "uindex"]
+# column names that are keywords of the lexer: plain names in CREATE TABLE / CREATE INDEX column lists (calibrated on the pinned tree); inside an ALTER
+# statement several of them are keywords by design, so they are only used in index lists
+INDEX_ONLY_WORDS = ["rename", "modify", "column", "Modify", "COLUMN", "type", "comment", "key", "default", "references", "schema", "sequence", "domain", "tag",
+                    "options", "Type", "COMMENT", "table", "database", "location", "format", "stored", "using", "storage", "cache", "start", "order"]
+
+KINDS = ["add", "add_default", "add_ref", "readd", "drop", "rename", "modify", "uniq1", "uniq_n", "pk", "pk_unnamed", "check", "default", "fk", "fk_n", "index", "uindex"]
 
 
 class Model:
@@ -95,12 +102,22 @@ class Model:
             t["cols"].append({"name": nm, "type": "int", "size": None, "default": None, "unique": False})
             a.setdefault("columns", []).append("col")
             return "ALTER TABLE %s ADD %s int REFERENCES crm.customers (id)%s;" % (ref, nm, rng.choice(["", " ON DELETE CASCADE"]))
+        if kind == "readd":
+            # a column that an earlier statement dropped is added again (as a new column, at the end)
+            gone = [c for c in t.get("dropped", []) if norm(c) not in [norm(x["name"]) for x in t["cols"]]]
+            if not gone:
+                return None
+            nm = rng.choice(gone)
+            t["cols"].append({"name": nm, "type": "varchar", "size": 9, "default": None, "unique": False})
+            a.setdefault("columns", []).append("col")
+            return "ALTER TABLE %s ADD %s varchar(9);" % (ref, nm)
         if kind == "drop":
             if len(names) < 2:
                 return None
             c = rng.choice(names)
             sp = spell(rng, c) if c.isalnum() else c
             t["cols"] = [x for x in t["cols"] if x["name"] != c]
+            t.setdefault("dropped", []).append(c)
             a["dropped_columns"] = c
             return "ALTER TABLE %s DROP COLUMN %s;" % (ref, sp)
         if kind == "rename":
@@ -200,7 +217,7 @@ def gen_history(rng, table_set=None, plan=None, styles="puldkbD", ncols=None):
     tset = table_set or rng.choice(TABLE_SETS)
     for schema, name in tset:
         stmts.append(m.create(schema, name, ["a", "b", "c", "d"][:ncols or rng.randint(2, 4)],
-                              index_only=rng.choice(["rename", "modify", "column", "Modify", "COLUMN"]) if rng.random() < 0.25 else None))
+                              index_only=rng.choice(INDEX_ONLY_WORDS) if rng.random() < 0.3 else None))
     n_alter = 0
     respelled = False
     steps = plan or [(rng.choice(KINDS), None) for _ in range(rng.randint(1, 8))]
@@ -267,7 +284,11 @@ def compare(ent, t):
             g = a[key].get("name") if isinstance(a[key], dict) else a[key]
             if g != ma[key]:
                 errs.append(("alter." + key, a[key], ma[key]))
-    if ent.get("index") != t["index"]:
+    got_index = ent.get("index")
+    if isinstance(got_index, list):
+        # a word after the column list (NOLOGGING, ONLINE ...) is kept under an extra key of the index entry: not part of what the property lists
+        got_index = [{k: v for k, v in x.items() if k != "authorization"} if isinstance(x, dict) else x for x in got_index]
+    if got_index != t["index"]:
         errs.append(("index", ent.get("index"), t["index"]))
     return errs
 
@@ -283,19 +304,22 @@ def check_case(ctx, case):
         ctx.nontrivial_case(digest(text))
     nfr = STATE.counters.get("reg_frame_violation", 0)
     r = parse(text, {"silent": False})
+    kf = case.get("kf")
     if r[0] == "exc":
-        ctx.violation("exception", case, {"exception": r[1], "message": r[2]})
+        ctx.violation("exception", case, {"exception": r[1], "message": r[2]}, kf=kf)
         return
     ents = entities(r[1])
     model = case["model"]
     if len(ents) != len(model):
-        ctx.violation("table_count", case, {"observed": len(ents), "expected": len(model)})
+        ctx.violation("table_count", case, {"observed": len(ents), "expected": len(model)}, kf=kf)
         return
     for ent, t in zip(ents, model):
         errs = compare(ent, t)
         if errs:
-            ctx.violation(errs[0][0], case, {"table": [t["schema"], t["name"]], "diffs": [(w, short(o, 300), short(x, 300)) for w, o, x in errs[:3]]})
+            ctx.violation(errs[0][0], case, {"table": [t["schema"], t["name"]], "diffs": [(w, short(o, 300), short(x, 300)) for w, o, x in errs[:3]]}, kf=kf)
             break
+    if case.get("solo"):
+        return
     # the same history in a dialect output mode: ALTER / INDEX statements must reach the same tables with the same effect
     n = ctx.obs["histories_checked"] = ctx.obs["histories_checked"] + 1
     if n % 4 == 0:
@@ -331,9 +355,35 @@ def check_case(ctx, case):
         ctx.violation("undefined_table_accepted_silent", dict(case, with_ghost=True), {"statement": case["ghost"]})
 
 
+TRAILING = {"drop": ["CASCADE", "RESTRICT", "cascade"], "rename": ["CASCADE"], "pk": ["ENABLE", "DISABLE"], "uniq1": ["ENABLE"], "uniq_n": ["ENABLE"], "fk": ["ENABLE", "NOVALIDATE"],
+            "index": ["NOLOGGING", "ONLINE", "LOCAL"], "uindex": ["NOLOGGING", "ONLINE"]}
+
+
+def trailing_cases(ctx, n):
+    """one more word after a complete ALTER TABLE / CREATE INDEX statement (DROP COLUMN b CASCADE, ... PRIMARY KEY (a) ENABLE, CREATE INDEX .. NOLOGGING):
+    the statement still changes the table it names the way it declares (with an unqualified table the word used to overwrite the last field of the
+    statement - DROP COLUMN b CASCADE dropped the columns c, a, s, d, e - repaired by fix F20)."""
+    rng = ctx.rng
+    for j in range(n):
+        kind = rng.choice(sorted(TRAILING))
+        qualified = j % 3 != 2
+        tset = rng.choice([[("s1", "t")], [("sa", "t"), ("sb", "t")], [("Sa", "Orders"), ("sa", "u")]]) if qualified else rng.choice([[(None, "t")], [(None, "t"), (None, "u")]])
+        case = gen_history(rng, tset, [(kind, rng.randrange(len(tset)))], styles="puld" if qualified else "pul", ncols=3)
+        st = case["stmts"][-1]
+        if not (st.startswith(("ALTER TABLE", "CREATE")) and case["n_alter"] == 1):
+            continue
+        case["stmts"][-1] = st[:-1] + " " + rng.choice(TRAILING[kind]) + ";"
+        case["gen"] = "trailing_word"
+        case["solo"] = True
+        yield case
+
+
 def run_shard(ctx):
     rng = ctx.rng
     i = 0
+    for case in trailing_cases(ctx, ctx.budget(240, 3000)):
+        check_case(ctx, case)
+        ctx.obs["trailing_word_statements"] += 1
     for kind in KINDS:
         for style in "puldkbD":
             for tset in TABLE_SETS:
